@@ -4,6 +4,7 @@ import Librfn.Lemmas.Bintree
 import Librfn.Lemmas.BintreeMorris
 import Librfn.Lemmas.BintreePost
 import Librfn.Lemmas.BintreeFree
+import Librfn.Lemmas.BintreeList
 /-!
 # C11 — tree iterators visit in the promised order, restore the tree, and free safely
 
@@ -289,6 +290,178 @@ theorem free_right_clears_link (isList : Nat → Bool) (r : Tree) (h : Heap) (x 
     · intro i hix hil
       simp [setRight, upd, killAll, hix, hil]
 
+/-! ## list iterators -/
+
+/-- **The list iterator on a right-leaning list spine** (every list node has an element on its left, the
+    spine or the last element on its right) yields the sequence of the recursive `bintree_traverse_list`,
+    and does not modify the heap. -/
+theorem list_iterator_right_spine (isList : Nat → Bool) (t : Tree) (h : Heap) (p : Ptr) (it0 : Iter) (g : Nat)
+    (hs : RightSpine isList t) (hr : Repr h t p) (hg : 2 * size t + 2 ≤ g) :
+    ∃ out it', iterateAll isList g .list h it0 p = .ok (out, h, it') ∧ out.map Prod.fst = traverseList isList t := by
+  obtain ⟨rfl, hr⟩ := hr
+  cases ht : t with
+  | nil => subst ht; exact absurd hs (by simp [RightSpine])
+  | node l x r =>
+    subst ht
+    obtain ⟨out, it', hrun, hm⟩ := right_run isList g h (.node l x r) ⟨.listRight, some x, it0.parent⟩ g hs hr rfl rfl (by omega)
+    refine ⟨out, it', ?_, hm⟩
+    have hx := hr.1
+    -- `bintree_iterate_list` chooses `list_right_iterator`
+    have hright : iterateList isList g h it0 (some x) = listRightIterator isList h ⟨.listRight, some x, it0.parent⟩ := by
+      by_cases hlx : isList x = true
+      · simp only [RightSpine, hlx, if_true] at hs
+        obtain ⟨a, e, b, rfl, he⟩ := isElem_root hs.1
+        have he' := hr.2.1.1
+        have hx' : h x = some ⟨some e, false, rootK r none⟩ := hx
+        simp only [iterateList, callFilter, hx', hlx, he', he]
+      · have hlx' : isList x = false := by simpa using hlx
+        simp only [iterateList, callFilter, hx, hlx']
+    simp only [iterateAll, iterate, root, hright]
+    simp only [drainFrom, next] at hrun
+    exact hrun
+
+/-- **The list iterator on a left-leaning list spine** (every list node has an element on its right, the
+    spine or the first element on its left; ids distinct) yields the sequence of the recursive
+    `bintree_traverse_list`, and does not modify the heap. -/
+theorem list_iterator_left_spine (isList : Nat → Bool) (t : Tree) (h : Heap) (p : Ptr) (it0 : Iter) (g : Nat)
+    (hs : LeftSpine isList t) (hr : Repr h t p) (hd : Distinct t) (hg : 2 * size t + 2 ≤ g) :
+    ∃ out it', iterateAll isList g .list h it0 p = .ok (out, h, it') ∧ out.map Prod.fst = traverseList isList t := by
+  cases ht : t with
+  | nil => subst ht; exact absurd hs (by simp [LeftSpine])
+  | node l x r =>
+    subst ht
+    by_cases hlx : isList x = true
+    · have hs' := hs
+      simp only [LeftSpine, hlx, if_true] at hs'
+      obtain ⟨hre, hsl⟩ := hs'
+      obtain ⟨ra, er, rb, rfl, her⟩ := isElem_root hre
+      by_cases hll : listRooted isList l = true
+      · -- at least two list nodes: `list_left_iterator`
+        obtain ⟨rfl, hrep⟩ := hr
+        have d := distinct_node hd
+        obtain ⟨dd, e0, dn, hdesc, hdeep, hdn, hdl, hdt, hhead⟩ := listDescend_spec isList h l x _ g hlx hll hs hrep (by omega)
+        have hx : h x = some ⟨root l, false, some er⟩ := hrep.1
+        have hup : listLeftIterator g h ⟨.listLeft, some x, some x⟩ = .ok (root (.node ra er rb), h, ⟨.listLeft, none, some x⟩) := by
+          simp [listLeftIterator, hx, root]
+        obtain ⟨dd', hdeep', hrun⟩ := left_up isList g h x l x _ 0 none hlx hs hrep hd (fun _ _ _ => rfl) d.x_not_left hup (by omega)
+        rw [hdeep] at hdeep'; cases hdeep'
+        have hlen := length_traverse_le isList (.node l x (.node ra er rb))
+        have hul : (upElems isList (.node l x (.node ra er rb))).length ≤ size (.node l x (.node ra er rb)) := by
+          unfold upElems; rw [List.length_tail]; omega
+        obtain ⟨c, hc⟩ : ∃ c, g = (c + 1 + (upElems isList (.node l x (.node ra er rb))).length) + 1 :=
+          ⟨g - 2 - (upElems isList (.node l x (.node ra er rb))).length, by omega⟩
+        refine ⟨(e0, some x) :: ((upElems isList (.node l x (.node ra er rb))).map (·, some x) ++ []), ⟨.listLeft, none, some x⟩, ?_, ?_⟩
+        · -- `bintree_iterate_list` chooses `list_left_iterator` and descends to the deepest list node
+          cases hl : l with
+          | nil => subst hl; simp [listRooted] at hll
+          | node l' x1 r1 =>
+            subst hl
+            have hx1 : isList x1 = true := hll
+            have hhx1 := hrep.2.1.1
+            have hx' : h x = some ⟨some x1, false, some er⟩ := hx
+            have hinit : iterateList isList g h it0 (some x) = .ok (some e0, h, ⟨.listLeft, some dd, some x⟩) := by
+              simp only [iterateList, callFilter, hx', hlx, hhx1, hx1, hdesc, hdn, hdt, hdl]
+              simp
+            simp only [iterateAll, iterate, root, hinit]
+            rw [show drain isList g g = drain isList g ((c + 1 + (upElems isList (.node (.node l' x1 r1) x (.node ra er rb))).length) + 1)
+              from by rw [← hc]]
+            rw [drain_some, hrun (c + 1), drainFrom_listLeft]
+            simp only [listLeftIterator]
+            rw [drain_none]
+            simp [consP, prependP]
+        · simp only [List.map_cons, List.append_nil, List.map_map]
+          have : (List.map (Prod.fst ∘ fun x_1 => (x_1, some x)) (upElems isList (.node l x (.node ra er rb)))) =
+              upElems isList (.node l x (.node ra er rb)) := by
+            simp [Function.comp_def]
+          rw [this]
+          exact head_tail_eq _ _ hhead
+      · -- a single list node: the tree is also a right-leaning spine
+        have hll' : listRooted isList l = false := by simpa using hll
+        have hel : IsElem isList l := by
+          cases hl : l with
+          | nil => subst hl; exact absurd hsl (by simp [LeftSpine])
+          | node a e b => subst hl; exact hll'
+        have hrs : RightSpine isList (.node l x (.node ra er rb)) := by
+          simp only [RightSpine, hlx, if_true, her, Bool.false_eq_true, if_false, and_true]; exact hel
+        exact list_iterator_right_spine isList _ h p it0 g hrs hr hg
+    · -- the tree is a single element
+      have hrs : RightSpine isList (.node l x r) := by simp [RightSpine, hlx]
+      exact list_iterator_right_spine isList _ h p it0 g hrs hr hg
+
+/-! ## the recursive traversals of bintree.c are the specification's traversals -/
+
+theorem rootK_none (t : Tree) : rootK t none = root t := Librfn.Lemmas.Bintree.rootK_none t
+
+/-- `bintree_traverse_in_order` visits `inorder t` -/
+theorem trav_in_order : ∀ (t : Tree) (h : Heap) (f : Nat), ReprK (fun _ => false) h t none → size t + 1 ≤ f →
+    travIn f h (root t) = .ok (inorder t)
+  | .nil, _, f, _, hf => by
+    obtain ⟨f', rfl⟩ : ∃ f', f = f' + 1 := ⟨f - 1, by omega⟩
+    simp [travIn, root, inorder]
+  | .node l x r, h, f, ⟨hx, hl, hr⟩, hf => by
+    simp only [size] at hf
+    obtain ⟨f', rfl⟩ : ∃ f', f = f' + 1 := ⟨f - 1, by omega⟩
+    have h1 := trav_in_order l h f' hl (by omega)
+    have h2 := trav_in_order r h f' hr (by omega)
+    have hx' : h x = some ⟨root l, false, root r⟩ := by rw [hx, rootK_none]
+    show travIn (f' + 1) h (some x) = _
+    rw [travIn]
+    simp only [hx', h1, h2, inorder]
+    simp
+
+/-- `bintree_traverse_pre_order` visits `preorder t` -/
+theorem trav_pre_order : ∀ (t : Tree) (h : Heap) (f : Nat), ReprK (fun _ => false) h t none → size t + 1 ≤ f →
+    travPre f h (root t) = .ok (preorder t)
+  | .nil, _, f, _, hf => by
+    obtain ⟨f', rfl⟩ : ∃ f', f = f' + 1 := ⟨f - 1, by omega⟩
+    simp [travPre, root, preorder]
+  | .node l x r, h, f, ⟨hx, hl, hr⟩, hf => by
+    simp only [size] at hf
+    obtain ⟨f', rfl⟩ : ∃ f', f = f' + 1 := ⟨f - 1, by omega⟩
+    have h1 := trav_pre_order l h f' hl (by omega)
+    have h2 := trav_pre_order r h f' hr (by omega)
+    have hx' : h x = some ⟨root l, false, root r⟩ := by rw [hx, rootK_none]
+    show travPre (f' + 1) h (some x) = _
+    rw [travPre]
+    simp only [hx', h1, h2, preorder]
+    simp
+
+/-- `bintree_traverse_post_order` visits `postorder t` -/
+theorem trav_post_order : ∀ (t : Tree) (h : Heap) (f : Nat), ReprK (fun _ => false) h t none → size t + 1 ≤ f →
+    travPost f h (root t) = .ok (postorder t)
+  | .nil, _, f, _, hf => by
+    obtain ⟨f', rfl⟩ : ∃ f', f = f' + 1 := ⟨f - 1, by omega⟩
+    simp [travPost, root, postorder]
+  | .node l x r, h, f, ⟨hx, hl, hr⟩, hf => by
+    simp only [size] at hf
+    obtain ⟨f', rfl⟩ : ∃ f', f = f' + 1 := ⟨f - 1, by omega⟩
+    have h1 := trav_post_order l h f' hl (by omega)
+    have h2 := trav_post_order r h f' hr (by omega)
+    have hx' : h x = some ⟨root l, false, root r⟩ := by rw [hx, rootK_none]
+    show travPost (f' + 1) h (some x) = _
+    rw [travPost]
+    simp only [hx', h1, h2, postorder]
+    simp
+
+/-- `bintree_traverse_list` visits `traverseList t` (on every tree, spine or not) -/
+theorem trav_list (isList : Nat → Bool) : ∀ (t : Tree) (h : Heap) (f : Nat), ReprK (fun _ => false) h t none →
+    size t + 1 ≤ f → travList isList f h (root t) = .ok (traverseList isList t)
+  | .nil, _, f, _, hf => by
+    obtain ⟨f', rfl⟩ : ∃ f', f = f' + 1 := ⟨f - 1, by omega⟩
+    simp [travList, root, traverseList]
+  | .node l x r, h, f, ⟨hx, hl, hr⟩, hf => by
+    simp only [size] at hf
+    obtain ⟨f', rfl⟩ : ∃ f', f = f' + 1 := ⟨f - 1, by omega⟩
+    have h1 := trav_list isList l h f' hl (by omega)
+    have h2 := trav_list isList r h f' hr (by omega)
+    have hx' : h x = some ⟨root l, false, root r⟩ := by rw [hx, rootK_none]
+    show travList isList (f' + 1) h (some x) = _
+    rw [travList]
+    by_cases hlx : isList x = true
+    · simp only [hx', h1, h2, traverseList, hlx, if_true]
+      simp
+    · simp [hx', traverseList, hlx]
+
 /-- non-vacuity: the 3-node tree `1 ← 0 → 2` held by a concrete heap -/
 def exHeap : Heap := fun i =>
   if i = 0 then some ⟨some 1, false, some 2⟩ else if i = 1 ∨ i = 2 then some ⟨none, false, none⟩ else none
@@ -316,5 +489,31 @@ example : (free (fun _ => false) 8 exHeap default (some 0)).toOption.map (fun r 
 
 example : (freeLeft (fun _ => false) 8 exHeap default 0).toOption.map (fun r => (r.2, r.1 0, r.1 1))
     = some ([1], some ⟨none, false, some 2⟩, none) := by decide
+
+/-- non-vacuity of the spine hypotheses: a left-leaning spine `L0(L1(e2, e3), e4)` and the mirrored
+    right-leaning one, list nodes 0 and 1 -/
+def exIsList : Nat → Bool := fun i => i = 0 || i = 1
+def exLeft : Tree := .node (.node (.node .nil 2 .nil) 1 (.node .nil 3 .nil)) 0 (.node .nil 4 .nil)
+def exLeftHeap : Heap := fun i =>
+  if i = 0 then some ⟨some 1, false, some 4⟩ else if i = 1 then some ⟨some 2, false, some 3⟩
+  else if i ≤ 4 then some ⟨none, false, none⟩ else none
+def exRight : Tree := .node (.node .nil 2 .nil) 0 (.node (.node .nil 3 .nil) 1 (.node .nil 4 .nil))
+def exRightHeap : Heap := fun i =>
+  if i = 0 then some ⟨some 2, false, some 1⟩ else if i = 1 then some ⟨some 3, false, some 4⟩
+  else if i ≤ 4 then some ⟨none, false, none⟩ else none
+
+example : LeftSpine exIsList exLeft ∧ Repr exLeftHeap exLeft (some 0) ∧ Distinct exLeft := by
+  refine ⟨by simp [LeftSpine, exLeft, exIsList, IsElem], ⟨rfl, ?_⟩, by simp [Distinct, exLeft, inorder]⟩
+  simp [ReprK, exLeftHeap, exLeft, root, rootK]
+
+example : RightSpine exIsList exRight ∧ Repr exRightHeap exRight (some 0) := by
+  refine ⟨by simp [RightSpine, exRight, exIsList, IsElem], rfl, ?_⟩
+  simp [ReprK, exRightHeap, exRight, root, rootK]
+
+example : (iterateAll exIsList 12 .list exLeftHeap default (some 0)).toOption.map (fun r => r.1.map Prod.fst)
+    = some [2, 3, 4] ∧ traverseList exIsList exLeft = [2, 3, 4] := by decide
+
+example : (iterateAll exIsList 12 .list exRightHeap default (some 0)).toOption.map (fun r => r.1.map Prod.fst)
+    = some [2, 3, 4] ∧ traverseList exIsList exRight = [2, 3, 4] := by decide
 
 end Librfn.C11
